@@ -746,8 +746,8 @@ func runCase(seed uint64, conc bool, sc *script) (string, bool, string, map[stri
 	for h, s := range cfg.starts {
 		starts = append(starts, fmt.Sprintf("(%d%%N, %d%%nat)", h, s))
 	}
-	fmt.Fprintf(&sb, "{| c_cfg := {| cf_strict := %s; cf_autoalloc := %s; cf_maxblocks := %d%%nat; cf_pool_base := %d%%N; cf_nblocks := %d%%nat; cf_bsize := %d%%nat; cf_retries := %d%%nat; cf_starts := [%s]; cf_count_requested := %s; cf_aip_leak := %s; cf_stale_cache := %s |}; ",
-		b2s(cfg.strict), b2s(cfg.autoalloc), mbk, cfg.base, cfg.nblocks, cfg.bsize, ipam.VerifDatastoreRetries, strings.Join(starts, "; "), b2s(modelUnfixed), b2s(modelUnfixed), b2s(modelUnfixed))
+	fmt.Fprintf(&sb, "{| c_cfg := {| cf_strict := %s; cf_autoalloc := %s; cf_maxblocks := %d%%nat; cf_pool_base := %d%%N; cf_nblocks := %d%%nat; cf_bsize := %d%%nat; cf_retries := %d%%nat; cf_starts := [%s]; cf_count_requested := %s; cf_aip_leak := %s; cf_stale_cache := %s |}; c_fx := %s; ",
+		b2s(cfg.strict), b2s(cfg.autoalloc), mbk, cfg.base, cfg.nblocks, cfg.bsize, ipam.VerifDatastoreRetries, strings.Join(starts, "; "), b2s(modelUnfixed), b2s(modelUnfixed), b2s(modelUnfixed), b2s(claimBumps != modelFlip))
 	var cl []string
 	for _, cs := range clients {
 		var os []string
@@ -861,6 +861,7 @@ func runCase(seed uint64, conc bool, sc *script) (string, bool, string, map[stri
 	if sc != nil {
 		tags = append(tags, "witness:"+sc.name)
 	}
+	tags = append(tags, fmt.Sprintf("claim-bumps-revision:%v", claimBumps))
 	nt := nAssign > 0 && released
 	if conc {
 		nt = nAssign > 0 && (sawConflict || crashes > 0)
@@ -878,7 +879,45 @@ type line struct {
 	Tags   []string       `json:"tags"`
 }
 
-var modelUnfixed bool
+var modelUnfixed, modelFlip, claimBumps bool
+
+// probeClaimBumps reports which claimAffineBlock the tree has: with fixes/C22-claim-existing-block-bumps-revision.patch
+// a ClaimAffinity of a block that this host already owns writes the block back (one block update) before
+// confirming the affinity; the code without that patch performs no block update on that path.
+func probeClaimBumps() bool {
+	logrus.SetLevel(logrus.PanicLevel)
+	auto := v3.Automatic
+	pool := v3.IPPool{ObjectMeta: metav1.ObjectMeta{Name: "pool0"}, Spec: v3.IPPoolSpec{
+		CIDR: fmt.Sprintf("%s/%d", ip4(base0), 30), BlockSize: 31,
+		AllowedUses:    []v3.IPPoolAllowedUse{v3.IPPoolAllowedUseWorkload, v3.IPPoolAllowedUseTunnel},
+		AssignmentMode: &auto,
+	}}
+	st := mb.NewStore()
+	ctx := context.Background()
+	n := internalapi.NewNode()
+	n.Name = "n0"
+	if _, err := st.Apply(ctx, &model.KVPair{Key: model.ResourceKey{Kind: internalapi.KindNode, Name: n.Name}, Value: n}); err != nil {
+		panic(err)
+	}
+	sched := mb.NewSched(st)
+	sched.Scheduled = mb.IPAMOnly
+	runner := mb.NewRunner(sched)
+	ic := ipam.NewIPAMClient(sched.Client(0), &pools{pool: pool}, noReservations{})
+	cidr := cnet.IPNet{IPNet: net.IPNet{IP: ip4(base0), Mask: net.CIDRMask(31, 32)}}
+	runner.Start(0, func() {
+		for k := 0; k < 2; k++ {
+			_, _, _ = ic.ClaimAffinity(ctx, cidr, ipam.AffinityConfig{AffinityType: ipam.AffinityTypeHost, Host: "n0"})
+		}
+	})
+	updates := 0
+	for len(runner.Pending()) > 0 {
+		c := runner.Step(0, mb.Proceed)
+		if _, ok := c.Key.(model.BlockKey); ok && c.Op == "update" {
+			updates++
+		}
+	}
+	return updates > 0
+}
 
 func main() {
 	flag.BoolVar(&modelUnfixed, "model-unfixed", false, "emit cases whose model flags select the behaviour of the unfixed code (debugging aid)")
@@ -887,7 +926,9 @@ func main() {
 	mode := flag.String("mode", "mixed", "seq | conc | mixed")
 	only := flag.Int("only", -1, "emit only the case with this index (replay)")
 	noScripts := flag.Bool("no-scripts", false, "do not start with the scripted witness cases")
+	flag.BoolVar(&modelFlip, "model-flip", false, "tell the model the opposite of what the probe of claimAffineBlock found (debugging aid)")
 	flag.Parse()
+	claimBumps = probeClaimBumps()
 	enc := json.NewEncoder(os.Stdout)
 	for i := 0; i < *n; i++ {
 		if *only >= 0 && i != *only {
